@@ -522,6 +522,8 @@ class SrcState:
         """Common synchronous part of one pull. Returns item or raises Stop marker."""
         w = self.world
         if self.ended:
+            if getattr(w, "repoll_events", False):
+                w.use(("end", self.sid))  # opt-in: asking an exhausted source again is a use as well
             return _END  # pull on exhausted source: not an event
         if self.pos >= len(self.items):
             w.use(("end", self.sid))
@@ -616,6 +618,8 @@ class AsyncBareSource:
             st.pull_after_close = True
             raise StopAsyncIteration
         if st.ended:  # re-polling an exhausted source: not an event, no suspension
+            if getattr(w, "repoll_events", False):
+                st.step()
             raise StopAsyncIteration
         st.started = True
         st.active += 1
